@@ -44,86 +44,115 @@ Qed.
 
 (* ---------------------------------------------------------------- durations *)
 Definition M32 : N := 4294967296.
+Definition M64 : N := 18446744073709551616.
+Definition M31 : N := 2147483648.
 
-Lemma mod_lt_M32 x : x mod M32 < M32.
-Proof. apply N.mod_lt. unfold M32. lia. Qed.
+Definition wrapM (M : N) (x : N) : N := x mod M.
 
-Lemma fold_u32' l : forall a, a < M32 -> fold_left (fun d x => u32 (d + x)) l a = (a + sumN l) mod M32.
+Section Wrap.
+Variable M : N.
+Hypothesis Mpos : 0 < M.
+
+Lemma mod_lt_M x : x mod M < M.
+Proof. apply N.mod_lt. lia. Qed.
+
+Lemma fold_wrap l : forall a, a < M -> fold_left (fun d x => wrapM M (d + x)) l a = (a + sumN l) mod M.
 Proof.
   induction l as [|x t IH]; intros a Ha.
   - cbn. rewrite N.add_0_r, N.mod_small; auto.
-  - cbn [fold_left sumN]. unfold u32 at 2. change 4294967296 with M32. rewrite IH by apply mod_lt_M32.
-    rewrite N.add_mod_idemp_l by (unfold M32; lia). f_equal. lia.
+  - cbn [fold_left sumN]. unfold wrapM at 2. rewrite IH by apply mod_lt_M.
+    rewrite N.add_mod_idemp_l by lia. f_equal. lia.
 Qed.
 
 Lemma traf_step_dur id ff a t :
-  a_dur a < M32 ->
-  a_dur (traf_step id ff a t) = (a_dur a + traf_ref_dur id t) mod M32.
+  a_dur a < M ->
+  a_dur (traf_step_w (wrapM M) id ff a t) = (a_dur a + traf_ref_dur id t) mod M.
 Proof.
-  intros Ha. unfold traf_step, traf_ref_dur. destruct (t_track t =? id).
-  - cbn [a_dur]. apply fold_u32'. exact Ha.
+  intros Ha. unfold traf_step_w, traf_ref_dur. destruct (t_track t =? id).
+  - cbn [a_dur]. apply fold_wrap. exact Ha.
   - rewrite N.add_0_r, N.mod_small; auto.
 Qed.
 
 Lemma trafs_fold_dur id ff ts : forall a,
-  a_dur a < M32 ->
-  a_dur (fold_left (traf_step id ff) ts a) = (a_dur a + sumN (map (traf_ref_dur id) ts)) mod M32.
+  a_dur a < M ->
+  a_dur (fold_left (traf_step_w (wrapM M) id ff) ts a) = (a_dur a + sumN (map (traf_ref_dur id) ts)) mod M.
 Proof.
   induction ts as [|t r IH]; intros a Ha.
   - cbn. rewrite N.add_0_r, N.mod_small; auto.
   - cbn [fold_left map sumN]. rewrite IH.
-    + rewrite traf_step_dur by exact Ha. rewrite N.add_mod_idemp_l by (unfold M32; lia). f_equal. lia.
-    + rewrite traf_step_dur by exact Ha. apply mod_lt_M32.
+    + rewrite traf_step_dur by exact Ha. rewrite N.add_mod_idemp_l by lia. f_equal. lia.
+    + rewrite traf_step_dur by exact Ha. apply mod_lt_M.
 Qed.
 
 Lemma frags_step_dur id frs : forall ff a a',
-  a_dur a < M32 ->
-  frags_step id ff a frs = Ok a' ->
-  a_dur a' = (a_dur a + sumN (map (frag_ref_dur id) frs)) mod M32.
+  a_dur a < M ->
+  frags_step_w (wrapM M) id ff a frs = Ok a' ->
+  a_dur a' = (a_dur a + sumN (map (frag_ref_dur id) frs)) mod M.
 Proof.
   induction frs as [|fr t IH]; intros ff a a' Ha.
   - cbn. intros [= <-]. rewrite N.add_0_r, N.mod_small; auto.
-  - cbn [frags_step]. destruct (fr_moof fr) as [m|] eqn:Mf; [|discriminate].
+  - cbn [frags_step_w]. destruct (fr_moof fr) as [m|] eqn:Mf; [|discriminate].
     intros H. apply IH in H.
     + rewrite H, trafs_fold_dur by exact Ha. cbn [map sumN]. unfold frag_ref_dur at 2. rewrite Mf.
-      rewrite N.add_mod_idemp_l by (unfold M32; lia). f_equal. lia.
-    + rewrite trafs_fold_dur by exact Ha. apply mod_lt_M32.
+      rewrite N.add_mod_idemp_l by lia. f_equal. lia.
+    + rewrite trafs_fold_dur by exact Ha. apply mod_lt_M.
 Qed.
+End Wrap.
 
+(* repaired text: no wrap survives: the size is the segment's (mod 2^64, the width of Size()) and below
+   2^31, the duration is the reference track's sum (mod 2^64) and below 2^32 *)
 Lemma seg_data_of_facts id s d :
   seg_data_of id s = Ok d ->
-  sd_size d = u32 (seg_size s) /\ sd_dur d = seg_ref_dur id s mod M32 /\ sd_start d = sg_start s.
+  sd_size d = seg_size s mod M64 /\ sd_size d < M31 /\ sd_dur d = seg_ref_dur id s mod M64 /\ sd_dur d < M32 /\ sd_start d = sg_start s.
 Proof.
-  unfold seg_data_of. destruct (frags_step id true (mkAcc 0 0%Z 0) (sg_frags s)) as [a| | |] eqn:E; cbn [rbind]; try discriminate.
-  intros [= <-]. cbn. repeat split.
-  apply frags_step_dur in E; [|cbn; unfold M32; lia]. cbn in E. exact E.
+  unfold seg_data_of, frags_step.
+  destruct (frags_step_w u64 id true (mkAcc 0 0%Z 0) (sg_frags s)) as [a| | |] eqn:E; cbn [rbind]; try discriminate.
+  destruct (MAX_REF_SIZE <? u64 (seg_size s)) eqn:Hs; [discriminate|].
+  destruct (MAX_REF_DUR <? a_dur a) eqn:Hd; [discriminate|].
+  intros [= <-]. cbn [sd_size sd_dur sd_start].
+  apply N.ltb_ge in Hs. apply N.ltb_ge in Hd. unfold MAX_REF_SIZE in Hs. unfold MAX_REF_DUR in Hd.
+  change u64 with (wrapM M64) in E.
+  apply (frags_step_dur M64) in E; [|unfold M64; lia|cbn; unfold M64; lia]. cbn [a_dur] in E. rewrite N.add_0_l in E.
+  unfold seg_ref_dur. rewrite <- E. unfold u32, u64 in *. fold M64 in Hs |- *. unfold M31, M32.
+  rewrite !N.mod_small by lia. repeat split; lia.
 Qed.
 
 Lemma find_segment_data_facts id segs : forall sds,
   find_segment_data id segs = Ok sds ->
-  map sd_size sds = map (fun s => u32 (seg_size s)) segs /\
-  map sd_dur sds = map (fun s => seg_ref_dur id s mod M32) segs.
+  Forall2 (fun d s => sd_size d = seg_size s mod M64 /\ sd_size d < M31 /\ sd_dur d = seg_ref_dur id s mod M64 /\ sd_dur d < M32) sds segs.
 Proof.
-  induction segs as [|s t IH]; intros sds.
-  - cbn. intros [= <-]. auto.
-  - cbn [find_segment_data]. destruct (seg_data_of id s) as [d| | |] eqn:E; cbn [rbind]; try discriminate.
-    destruct (find_segment_data id t) as [r| | |] eqn:F; cbn [rbind]; try discriminate.
-    intros [= <-]. destruct (IH r eq_refl) as [I1 I2]. destruct (seg_data_of_facts _ _ _ E) as (S1 & S2 & _).
-    cbn [map]. rewrite I1, I2, S1, S2. auto.
+  unfold find_segment_data. induction segs as [|s t IH]; intros sds.
+  - cbn. intros [= <-]. constructor.
+  - cbn [find_segment_data_g]. destruct (seg_data_of id s) as [d| | |] eqn:E; cbn [rbind]; try discriminate.
+    destruct (find_segment_data_g seg_data_of id t) as [r| | |] eqn:F; cbn [rbind]; try discriminate.
+    intros [= <-]. destruct (seg_data_of_facts _ _ _ E) as (S1 & S2 & S3 & S4 & _).
+    constructor; [auto|]. apply IH. reflexivity.
+Qed.
+
+(* pinned text *)
+Lemma seg_data_of_pinned_facts id s d :
+  seg_data_of_pinned id s = Ok d ->
+  (sd_size d = seg_size s mod M32) /\ (sd_dur d = seg_ref_dur id s mod M32).
+Proof.
+  unfold seg_data_of_pinned.
+  destruct (frags_step_w u32 id true (mkAcc 0 0%Z 0) (sg_frags s)) as [a| | |] eqn:E; cbn [rbind]; try discriminate.
+  intros [= <-]. cbn [sd_size sd_dur]. split; [reflexivity|].
+  change u32 with (wrapM M32) in E.
+  apply (frags_step_dur M32) in E; [|unfold M32; lia|cbn; unfold M32; lia]. cbn [a_dur] in E. rewrite N.add_0_l in E. exact E.
 Qed.
 
 (* ---------------------------------------------------------------- what UpdateSidx leaves *)
-Lemma update_sidx_shape f add nz newtag f' :
-  update_sidx f add nz newtag = Ok f' ->
+Lemma update_sidx_shape fsd f add nz newtag f' :
+  update_sidx_g fsd f add nz newtag = Ok f' ->
   (add = true \/ f_sidxs f <> []) ->
   exists moov rt sds old anchor rest,
     f_moov f = Some moov /\
     find_reference_trak (b_traks moov) = Ok rt /\
-    find_segment_data (k_id rt) (f_segs f) = Ok sds /\
+    fsd (k_id rt) (f_segs f) = Ok sds /\
     f_sidxs f' = mkSidx (fill_sidx old rt sds nz (sumN (map (fun s => b_size (sx_box s)) rest))) anchor :: rest /\
     f_segs f' = f_segs f /\ f_init f' = f_init f /\ f_mfra f' = f_mfra f /\ f_segs f <> [].
 Proof.
-  unfold update_sidx. destruct (negb (f_fragmented f)); [discriminate|].
+  unfold update_sidx_g. destruct (negb (f_fragmented f)); [discriminate|].
   destruct (f_init f) as [ini|] eqn:Ei; [|discriminate].
   destruct (f_moov f) as [moov|] eqn:Em; [|discriminate].
   destruct (is_nil (f_segs f)) eqn:Sn; [discriminate|].
@@ -134,7 +163,7 @@ Proof.
   rewrite Hgo in H.
   destruct (find_reference_trak (b_traks moov)) as [rt| | |] eqn:R; cbn [rbind] in H; try discriminate.
   destruct (negb (k_trex rt)); [discriminate|].
-  destruct (find_segment_data (k_id rt) (f_segs f)) as [sds| | |] eqn:F; cbn [rbind] in H; try discriminate.
+  destruct (fsd (k_id rt) (f_segs f)) as [sds| | |] eqn:F; cbn [rbind] in H; try discriminate.
   destruct (f_sidxs f) as [|sx rest] eqn:Sx.
   - destruct (f_segs f) as [|s0 t] eqn:Es; [discriminate|].
     destruct (first_box s0) as [fb| | |]; try discriminate.
@@ -147,11 +176,36 @@ Qed.
 Definition anchor_in_output (f : file) (sx : sidx) : N :=
   sizes_of (init_boxes f) + b_size (sx_box sx) + b_first_offset (sx_box sx).
 
+(* what a reader of the written reference word gets back *)
+Lemma ref_word_roundtrip sz : sz < M31 -> dec_ref_word (enc_ref_word (mkRef 0 sz 0)) = (0, sz).
+Proof.
+  intros H. unfold dec_ref_word, enc_ref_word. cbn [r_type r_size]. change (u32 (0 * 2147483648)) with 0.
+  rewrite N.lor_0_l. unfold M31 in H. rewrite N.div_small, N.mod_small by lia. reflexivity.
+Qed.
+
+Lemma enc_ref_word_dur t sz d d' : enc_ref_word (mkRef t sz d) = enc_ref_word (mkRef t sz d').
+Proof. reflexivity. Qed.
+
+Lemma Forall2_impl {A B} (P Q : A -> B -> Prop) l l' :
+  (forall a b, P a b -> Q a b) -> Forall2 P l l' -> Forall2 Q l l'.
+Proof. intros H. induction 1; constructor; auto. Qed.
+
+Lemma Forall2_len {A B} (P : A -> B -> Prop) l l' : Forall2 P l l' -> length l = length l'.
+Proof. induction 1; cbn; auto. Qed.
+
+Lemma Forall2_map_l {A B C} (P : C -> B -> Prop) (g : A -> C) l l' :
+  Forall2 (fun a b => P (g a) b) l l' -> Forall2 P (map g l) l'.
+Proof. induction 1; cbn; constructor; auto. Qed.
+
+Lemma Forall2_map_eq {A B} (g : A -> N) (h : B -> N) l l' :
+  Forall2 (fun a b => g a = h b) l l' -> map g l = map h l'.
+Proof. induction 1; cbn; [reflexivity|]. f_equal; auto. Qed.
+
 Lemma sidx_tiles f add nz newtag f' out :
   update_sidx f add nz newtag = Ok f' ->
   (add = true \/ f_sidxs f <> []) ->
   encode_segment_mode f' = Ok out ->
-  Forall (fun s => seg_size s < 2147483648) (f_segs f) ->
+  Forall (fun s => seg_size s < M64) (f_segs f) ->
   exists sx rest moov rt,
     f_sidxs f' = sx :: rest /\ f_moov f = Some moov /\ find_reference_trak (b_traks moov) = Ok rt /\
     let refs := b_refs (sx_box sx) in
@@ -161,22 +215,26 @@ Lemma sidx_tiles f add nz newtag f' out :
        let before := init_boxes f' ++ map sx_box (f_sidxs f') ++ concat (map seg_boxes (firstn i segs)) in
        out = before ++ concat (map seg_boxes (skipn i segs)) ++ opt_list (f_mfra f') /\
        anchor_in_output f' sx + sumN (firstn i (map r_size refs)) = sizes_of before) /\
-    map r_dur refs = map (fun s => seg_ref_dur (k_id rt) s mod M32) segs /\
-    Forall (fun r => r_type r = 0) refs /\
+    Forall2 (fun r s => r_size r = seg_size s /\ r_size r < M31 /\ r_type r = 0 /\
+                        dec_ref_word (enc_ref_word r) = (0, seg_size s) /\
+                        r_dur r = seg_ref_dur (k_id rt) s mod M64 /\ r_dur r < M32) refs segs /\
     b_refid (sx_box sx) = k_id rt /\ b_timescale (sx_box sx) = k_timescale rt.
 Proof.
-  intros U Hdo E Hsz.
-  destruct (update_sidx_shape _ _ _ _ _ U Hdo) as (moov & rt & sds & old & anc & rest & Hm & Hr & Hf & Hs & Hsegs & Hi & Hmf & Hne).
-  destruct (find_segment_data_facts _ _ _ Hf) as [Fs Fd].
+  intros U Hdo E Hsz. unfold update_sidx in U.
+  destruct (update_sidx_shape _ _ _ _ _ _ U Hdo) as (moov & rt & sds & old & anc & rest & Hm & Hr & Hf & Hs & Hsegs & Hi & Hmf & Hne).
+  pose proof (find_segment_data_facts _ _ _ Hf) as F2.
   exists (mkSidx (fill_sidx old rt sds nz (sumN (map (fun s => b_size (sx_box s)) rest))) anc), rest, moov, rt.
   split; [exact Hs|]. split; [exact Hm|]. split; [exact Hr|].
   cbn zeta. cbn [sx_box fill_sidx b_refs b_refid b_timescale].
+  assert (F3 : Forall2 (fun d s => sd_size d = seg_size s /\ sd_size d < M31 /\
+                                   sd_dur d = seg_ref_dur (k_id rt) s mod M64 /\ sd_dur d < M32) sds (f_segs f)).
+  { clear - F2 Hsz. induction F2 as [|d s ds ss H1 H2 IH]; [constructor|].
+    inversion Hsz as [|? ? Hs1 Hs2]; subst. constructor; [|apply IH; exact Hs2].
+    destruct H1 as (A & B & C & D). rewrite N.mod_small in A by exact Hs1. auto. }
   assert (Hsizes : map r_size (map (fun d => mkRef 0 (sd_size d) (sd_dur d)) sds) = map seg_size (f_segs f)).
-  { rewrite map_map. cbn [r_size]. change (map (fun x => sd_size x) sds) with (map sd_size sds). rewrite Fs.
-    apply map_ext_in. intros s Hin. rewrite Forall_forall in Hsz. specialize (Hsz s Hin).
-    unfold u32. apply N.mod_small. lia. }
-  rewrite Hsegs. split; [|split; [reflexivity|split; [exact Hne|split; [|split; [|split; [|split; reflexivity]]]]]].
-  - rewrite map_length. apply (f_equal (@length _)) in Fs. rewrite !map_length in Fs. exact Fs.
+  { rewrite map_map. cbn [r_size]. apply Forall2_map_eq. eapply Forall2_impl; [|exact F3]. cbn. intros; tauto. }
+  rewrite Hsegs. split; [|split; [reflexivity|split; [exact Hne|split; [|split; [|split; reflexivity]]]]].
+  - rewrite map_length. exact (Forall2_len _ _ _ F3).
   - intros i Hi'. split.
     + rewrite (encode_segment_mode_ok _ _ E), Hsegs.
       rewrite <- (firstn_skipn i (f_segs f)) at 1. rewrite concat_map_app, <- !app_assoc. reflexivity.
@@ -186,6 +244,79 @@ Proof.
         by (unfold sizes_of; rewrite map_map; reflexivity).
       change (sizes_of (?x :: map sx_box rest)) with (b_size x + sizes_of (map sx_box rest)).
       cbn [fill_sidx b_size]. rewrite Er. unfold sizes_of. lia.
-  - rewrite map_map. cbn [r_dur]. exact Fd.
-  - apply Forall_forall. intros r Hin. apply in_map_iff in Hin. destruct Hin as (d & <- & _). reflexivity.
+  - apply Forall2_map_l. eapply Forall2_impl; [|exact F3]. cbn [r_size r_type r_dur].
+    intros d s (A & B & C & D). rewrite <- A.
+    rewrite (enc_ref_word_dur 0 (sd_size d) (sd_dur d) 0), (ref_word_roundtrip _ B). auto 10.
+Qed.
+
+(* ---------------------------------------------------------------- the pinned text wrapped silently *)
+(* ftyp moov moof mdat with an mdat of 2^31 bytes, resp. a sample of 3*10^9 ticks twice *)
+Definition px (k : kind) (size : N) : topbox := mkBox k 0 size 8 0 [] false [] false [] [] 0 0 0 0.
+Definition p_moov : topbox := mkBox KMoov 0 600 8 0 [] true [] false [] [mkTrak 1 0 10000000 true] 0 0 0 0.
+Definition p_moof (durs : list N) : topbox :=
+  mkBox KMoof 0 100 8 0 [] false [] false [mkTraf 1 0 [durs] 0] [] 0 0 0 0.
+Definition p_big : list topbox := number_from 0 [px KFtyp 24; p_moov; p_moof [10]; px KMdat 2147483648].
+Definition p_long : list topbox := number_from 0 [px KFtyp 24; p_moov; p_moof [3000000000; 3000000000]; px KMdat 16].
+
+Definition first_ref (r : res file) : option (N * N * N) :=
+  match r with
+  | Ok f' => match f_sidxs f' with
+             | sx :: _ => match b_refs (sx_box sx) with
+                          | r :: _ => Some (dec_ref_word (enc_ref_word r), r_dur r)
+                          | [] => None
+                          end
+             | [] => None
+             end
+  | _ => None
+  end.
+
+Lemma sidx_pinned_refuted :
+  (exists f, assemble (mkOpts false false) p_big = Ok f /\ map seg_size (f_segs f) = [2147483748] /\
+             first_ref (update_sidx_pinned f true false 9) = Some ((1, 100), 10) /\
+             update_sidx f true false 9 = Err) /\
+  (exists f, assemble (mkOpts false false) p_long = Ok f /\ map (seg_ref_dur 1) (f_segs f) = [6000000000] /\
+             first_ref (update_sidx_pinned f true false 9) = Some ((0, 116), 1705032704) /\
+             update_sidx f true false 9 = Err).
+Proof.
+  split; (eexists; split; [vm_compute; reflexivity|]); vm_compute; repeat split; reflexivity.
+Qed.
+
+(* ---------------------------------------------------------------- which track is the reference track *)
+Lemma find_split {A} (p : A -> bool) l x :
+  find p l = Some x -> exists before after, l = before ++ x :: after /\ p x = true /\ Forall (fun y => p y = false) before.
+Proof.
+  induction l as [|a t IH]; [discriminate|]. cbn [find]. destruct (p a) eqn:Pa.
+  - intros [= <-]. exists [], t. auto.
+  - intros H. destruct (IH H) as (b & c & -> & Px & Fb). exists (a :: b), c. repeat split; auto.
+Qed.
+
+Lemma find_none_all {A} (p : A -> bool) l : find p l = None -> Forall (fun y => p y = false) l.
+Proof. intros H. apply Forall_forall. intros y Hy. exact (find_none p l H y Hy). Qed.
+
+Lemma reference_track_spec (traks : list trak) :
+  match find_reference_trak traks with
+  | Ok rt =>
+      exists before after, traks = before ++ rt :: after /\
+        ((k_handler rt = 0 /\ Forall (fun k => k_handler k <> 0) before) \/
+         (k_handler rt = 1 /\ Forall (fun k => k_handler k <> 0) traks /\ Forall (fun k => k_handler k <> 1) before) \/
+         (before = [] /\ Forall (fun k => k_handler k <> 0 /\ k_handler k <> 1) traks))
+  | Panic => traks = []
+  | _ => False
+  end.
+Proof.
+  unfold find_reference_trak.
+  destruct (find (fun k => k_handler k =? 0) traks) as [v|] eqn:Fv.
+  - destruct (find_split _ _ _ Fv) as (b & c & E & Pv & Fb). exists b, c. split; [exact E|]. left.
+    split; [apply N.eqb_eq; exact Pv|]. eapply Forall_impl; [|exact Fb]. cbn. intros k Hk. apply N.eqb_neq. exact Hk.
+  - pose proof (find_none_all _ _ Fv) as Nv.
+    assert (Nv' : Forall (fun k => k_handler k <> 0) traks)
+      by (eapply Forall_impl; [|exact Nv]; cbn; intros k Hk; apply N.eqb_neq; exact Hk).
+    destruct (find (fun k => k_handler k =? 1) traks) as [a|] eqn:Fa.
+    + destruct (find_split _ _ _ Fa) as (b & c & E & Pa & Fb). exists b, c. split; [exact E|]. right; left.
+      split; [apply N.eqb_eq; exact Pa|]. split; [exact Nv'|].
+      eapply Forall_impl; [|exact Fb]. cbn. intros k Hk. apply N.eqb_neq. exact Hk.
+    + pose proof (find_none_all _ _ Fa) as Na. destruct traks as [|k t]; [reflexivity|].
+      exists [], t. split; [reflexivity|]. right; right. split; [reflexivity|].
+      apply Forall_forall. intros x Hx. rewrite Forall_forall in Nv', Na. split; [apply Nv'; exact Hx|].
+      apply N.eqb_neq. apply Na. exact Hx.
 Qed.
